@@ -15,7 +15,7 @@ ASSUMPTIONS = [
     "longer histories follow because each step starts from an arbitrary state",
     "directory lookup: SHA-256 replaced by an ideal injective hash, so a hit means equal serialised contents; injectivity of the serialisation itself (sorted netstring pairs) is "
     "checked on name/cap pools built to collide under sloppy framing and, for all byte strings, by the C19 netstring obligations",
-    "tahoe_backup.py (the caller) is not driven",
+    "of tahoe_backup.py only BackerUpper.check_backupdb_file is driven (backup_tool); the directory walk / upload loop is not",
 ]
 T = {"quick": 150, "thorough": 900}
 OBLIGATIONS = [
@@ -46,4 +46,8 @@ OBLIGATIONS = [
                "thorough": [{"_label": "all"}]},
         desc="single-entry (plus optional common entry) contents with short names/caps over a shared alphabet ({'ab': 'c'} vs {'a': 'bc'}, {'a1:': 'b,'}-style framing look-alikes): "
              "the recorded directory is found iff the (name, cap) pairs are equal, i.e. the lookup key is injective in the pairs"),
+    chx("backup_tool", "C42_h", "h_backup_tool", timeout=T,
+        desc="tahoe_backup.BackerUpper.check_backupdb_file with options from the REAL cli.BackupOptions().parseOptions([... '--ignore-timestamps' or not ...]) and with hand-built "
+             "True/False/1/0 flag values, a recording backupdb and a canned check response: use_timestamps passed to check_file == not (flag given); the file is re-uploaded unless the "
+             "database offers a cap and either no check is due or the check answers healthy (then did_check_healthy is called)"),
 ]
